@@ -924,3 +924,106 @@ def check_stage_b(s):
     check_observation_composition(s)
     check_reward_terms(s)
     check_body_fields(s)
+
+
+# ----------------------------------------------------------------------------- thorough: C17.6 vector fields
+def _run_block(gb, stmts, env, gdc, gfn, gci):
+    gb.decisions, gb.trace, gb.effects, gb.asserts = {}, [], [], []
+    gb.depth = 0
+    gb.run(stmts, env, Ctx(gdc.module, gdc, gfn, gci))
+    return env
+
+
+def check_thorough(s):
+    """C17.6: the continuous-time vector field equals the increment of the reference's explicit update."""
+    P = s.prog
+    self_ = ("param", "self")
+    # ---- CartPole (per discrete action)
+    gci, gdc, gfn = gymref.method("CartPoleEnv", "step")
+    names = ["x", "x_dot", "theta", "theta_dot"]
+    syms = [("param", f"${n}") for n in names]
+    for act in (0, 1):
+        gb = gymref.builder(inline_all=False)
+        body = [st for st in gfn.body if not isinstance(st, ast.Assert)]
+        i1 = next(i for i, st in enumerate(body) if isinstance(st, ast.If))
+        env = {"self": self_, "action": ("const", act)}
+        stmts = body[:i1]
+        # x, x_dot, theta, theta_dot = self.state
+        env["x"], env["x_dot"], env["theta"], env["theta_dot"] = syms
+        stmts = [st for st in stmts if not (isinstance(st, ast.Assign) and isinstance(st.targets[0], ast.Tuple))]
+        _run_block(gb, stmts, env, gdc, gfn, gci)
+        g_x, g_th = (rename_attrs(gymref.to_common(env[k]), CLASSIC["CartPole"][1]) for k in ("xacc", "thetaacc"))
+        lb = s.builder(inline=set())
+        nz = Normalizer(lb)
+        y = ("call", ("global", "jax.numpy.array"), (("list", tuple(syms)),), ())
+        pl = one(s.paths(lb, "CartPole", "dynamics", binding={"y": y, "action": ("const", act)}), "CartPole.dynamics")
+        comps = pl.ret[2][0][1]
+        loc = s.loc("CartPole", "dynamics")
+        s.ob("C17.6", f"CartPole.dynamics[action={act}]", comps[0] == syms[1] and comps[2] == syms[3], "d/dt (x, θ) = (ẋ, θ̇)", loc, key="kinematic-components", detail=show(pl.ret, maxlen=160))
+        s.eq("C17.6", f"CartPole.dynamics[action={act}].x_dd", nz, comps[1], g_x, "cart acceleration == the reference's xacc", loc, key="cartpole-xacc",
+             necessary_for="the same continuous-time dynamics; CartPole with the Euler solver reproduces Gymnasium trajectories")
+        s.eq("C17.6", f"CartPole.dynamics[action={act}].theta_dd", nz, comps[3], g_th, "pole angular acceleration == the reference's thetaacc", loc, key="cartpole-thetaacc")
+    src = {ast.unparse(st) for st in ast.walk(gfn) if isinstance(st, ast.Assign)}
+    if not {"x = x + self.tau * x_dot", "x_dot = x_dot + self.tau * xacc", "theta = theta + self.tau * theta_dot", "theta_dot = theta_dot + self.tau * thetaacc"} <= src:
+        raise AnalysisError("reference CartPoleEnv.step: explicit-Euler update statements changed")
+    # ---- MountainCar / ContinuousMountainCar
+    for cls, gcls in (("MountainCar", "MountainCarEnv"), ("ContinuousMountainCar", "Continuous_MountainCarEnv")):
+        gci, gdc, gfn = gymref.method(gcls, "step")
+        aug = next(st for st in gfn.body if isinstance(st, ast.AugAssign) and isinstance(st.target, ast.Name) and st.target.id == "velocity")
+        i0 = gfn.body.index(aug)
+        gb = gymref.builder(inline_all=False, merge_ifs=True)
+        Pn, Vn, A = ("param", "$x"), ("param", "$v"), ("param", "$a")
+        env = {"self": self_, "position": Pn, "velocity": Vn, "action": A if cls == "MountainCar" else ("tuple", (A,))}
+        pre = [st for st in gfn.body[:i0] if isinstance(st, ast.Assign) and isinstance(st.targets[0], ast.Name) and st.targets[0].id == "force"]
+        _run_block(gb, pre, env, gdc, gfn, gci)
+        inc = reindex(gb, gymref.to_common(gb.ev(aug.value, env, Ctx(gdc.module, gdc, gfn, gci))))
+        lb = s.builder(inline=set())
+        nz = Normalizer(lb, minmax=True, total_order=True)
+        y = ("call", ("global", "jax.numpy.array"), (("list", (Pn, Vn)),), ())
+        pl = one(s.paths(lb, cls, "dynamics", binding={"y": y, "action": A}), f"{cls}.dynamics")
+        comps = pl.ret[2][0][1]
+        loc = s.loc(cls, "dynamics")
+        s.ob("C17.6", f"{cls}.dynamics", comps[0] == Vn, "d/dt position = velocity", loc, key="kinematic-components", detail=show(pl.ret, maxlen=160))
+        s.eq("C17.6", f"{cls}.dynamics.x_dd", nz, comps[1], inc, "acceleration == the per-step velocity increment of the reference (dt = 1)", loc, key="mountaincar-acceleration",
+             necessary_for="the same continuous-time dynamics as the Gymnasium namesake")
+    # ---- Acrobot
+    gci, gdc, gfn = gymref.method("AcrobotEnv", "_dsdt")
+    gb = gymref.builder(inline_all=False)
+    T1, T2, D1, D2, TQ = (("param", f"${n}") for n in ("t1", "t2", "d1", "d2", "tq"))
+    gpaths = [p for p in gb.paths(gfn, Ctx(gdc.module, gdc, gfn, gci), {"s_augmented": ("tuple", (T1, T2, D1, D2, TQ))}) if p.raised is None]
+    book = [p for p in gpaths if not any(v for t, v in p.conds)]
+    if len(book) != 1:
+        raise AnalysisError("reference AcrobotEnv._dsdt: the `book` branch is no longer the default path")
+    gret = book[0].ret
+
+    def fix_neg_index(n):
+        # s_augmented[-1] / s_augmented[:-1] on the 5-tuple
+        def f(x):
+            if x and x[0] == "sub" and x[1] == ("tuple", (T1, T2, D1, D2, TQ)):
+                if x[2] == ("const", -1):
+                    return TQ
+                if x[2][0] == "slice":
+                    return ("tuple", (T1, T2, D1, D2))
+            return x
+        return reindex(gb, mapnodes(n, f))
+
+    gret = rename_attrs(fix_neg_index(gret), CLASSIC["Acrobot"][1])
+    lb = s.builder(inline=set())
+    nz = Normalizer(lb)
+    y = ("call", ("global", "jax.numpy.array"), (("list", (T1, T2, D1, D2)),), ())
+    pl = one(s.paths(lb, "Acrobot", "dynamics", binding={"y": y}), "Acrobot.dynamics")
+    # the reference's link constants are class-level literals: compare at the constructor defaults (equal by C17.1)
+    lmod, ldef = lerax_defaults(P, "Acrobot")
+    subst = {("sub", ("attr", self_, "torques"), ("param", "action")): TQ}
+    for nm, dexpr in ldef.items():
+        if nm.startswith(("link_", "gravity")):
+            subst[("attr", self_, nm)] = lb.ev(dexpr, {}, Ctx(lmod, None, None))
+    lret = replace_nodes(pl.ret, subst)
+    comps = lret[2][0][1]
+    loc = s.loc("Acrobot", "dynamics")
+    if not (isinstance(gret, tuple) and gret[0] == "tuple" and len(gret[1]) == 5):
+        raise AnalysisError("reference AcrobotEnv._dsdt: unexpected return shape")
+    for i, nm in enumerate(("dtheta1", "dtheta2", "ddtheta1", "ddtheta2")):
+        s.eq("C17.6", f"Acrobot.dynamics.{nm}", nz, comps[i], gret[1][i], f"{nm} == the reference's _dsdt component (book equations, gravity at its checked default)", loc, key=f"acrobot-{nm}",
+             necessary_for="the same continuous-time dynamics as the Gymnasium namesake")
+    s.floor("C17.6", 14)
